@@ -1,11 +1,131 @@
 import SigmaVerif.Model.Cond
 import SigmaVerif.Spec.Cond
+import SigmaVerif.Lemmas.CondParse
+/-!
+# C02 — the condition grammar reads conditions as the Sigma specification says
+
+Property theorems only; the proofs are in `SigmaVerif.Lemmas.CondParse`.  The predicates used as
+hypotheses of `resolve_sound` (`idsDefined`, `selsMatch`, `nodesNonempty`) are defined there, in the
+section "hypotheses of `resolve_sound`".
+-/
 namespace SigmaVerif.Props.C02
-open SigmaVerif.Cond
+open SigmaVerif.Cond SigmaVerif.CondSpec SigmaVerif.Lemmas.CondParse
 
 /-- With `not` as a bare `Literal` (the tree before the fix) a detection called `notepad` is read
 as `not epad`. -/
 theorem literal_not_splits_name :
     parsesTo (parse literalGrammar "notepad".toList) (.not (.id "epad".toList)) = true := by decide
+
+/-! ## 1. Round trip -/
+
+/-- The canonical spelling of every expression — of any size and shape — is parsed, and the parse
+tree means what the expression means: NOT > AND > OR, left association, parentheses override,
+names are read whole. -/
+theorem parse_pp (g : Grammar) (hg : g.wf = true) (e : E) (he : e.wf g = true) :
+    ∃ t, parse g (pp 2 e) = some t ∧ ∀ dets ρ, semPT dets ρ t = e.sem dets ρ :=
+  parse_pp_aux (WF.of hg) e he
+
+/-- `notepad or android and not (1 of sel* or order)` -/
+def exampleE : E :=
+  .or (.id "notepad".toList)
+    (.and (.id "android".toList) (.not (.or (.sel .one "sel*".toList) (.id "order".toList))))
+
+example : pp 2 exampleE = "notepad or android and not (1 of sel* or order)".toList := by decide
+
+example : ∃ t, parse stdGrammar (pp 2 exampleE) = some t ∧
+    ∀ dets ρ, semPT dets ρ t = exampleE.sem dets ρ :=
+  parse_pp stdGrammar stdGrammar_wf exampleE (by decide)
+
+/-! ## 2. Names are read whole -/
+
+theorem name_whole_word (g : Grammar) (hg : g.wf = true) (n : Str) (hn : wfName g n = true) :
+    parse g n = some (.id n) :=
+  name_whole_word_aux (WF.of hg) n hn
+
+example : parse stdGrammar "notepad".toList = some (.id "notepad".toList) :=
+  name_whole_word stdGrammar stdGrammar_wf _ (by decide)
+example : parse stdGrammar "not-b".toList = some (.id "not-b".toList) :=
+  name_whole_word stdGrammar stdGrammar_wf _ (by decide)
+example : parse stdGrammar "1st".toList = some (.id "1st".toList) :=
+  name_whole_word stdGrammar stdGrammar_wf _ (by decide)
+example : parse stdGrammar "allx".toList = some (.id "allx".toList) :=
+  name_whole_word stdGrammar stdGrammar_wf _ (by decide)
+
+/-! ## 3. Selector patterns are globs -/
+
+theorem starMatch_eq_globStar (pat name : Str) (h : '\n' ∉ name) :
+    starMatch pat name = globStar pat name :=
+  starMatch_eq_globStar_aux pat name h
+
+example : starMatch "sel*n".toList "selection".toList = globStar "sel*n".toList "selection".toList :=
+  starMatch_eq_globStar _ _ (by decide)
+
+theorem selMatches_eq_selects (pat name : Str) (h : '\n' ∉ name) :
+    selMatches pat name = selects pat name :=
+  SigmaVerif.Lemmas.CondParse.selMatches_eq_selects pat name h
+
+example : selMatches "them".toList "selection".toList = selects "them".toList "selection".toList :=
+  selMatches_eq_selects _ _ (by decide)
+
+/-! ## 4. Post-processing resolves a parse tree to a condition with the same meaning -/
+
+/-- If every name is a detection of the rule, every selector matches some detection and every
+`and`/`or` node has an operand (`parse_nodesNonempty`: the parser builds no other), `resolve`
+succeeds and the resulting condition tree means what the parse tree means. -/
+theorem resolve_sound (dets : List Str) (t : PT)
+    (hdef : idsDefined dets t = true) (hsel : selsMatch dets t = true)
+    (hne : nodesNonempty t = true) (hnl : ∀ d ∈ dets, '\n' ∉ d) :
+    ∃ c, resolve dets t = .ok (some c) ∧ ∀ ρ, c.eval ρ = semPT dets ρ t :=
+  resolve_sound_aux dets hnl t hdef hsel hne
+
+example : ∃ c, resolve ["sel1".toList, "sel2".toList, "filter".toList]
+      (.and [.sel .any "sel*".toList, .not (.id "filter".toList)]) = .ok (some c) ∧
+    ∀ ρ, c.eval ρ = semPT ["sel1".toList, "sel2".toList, "filter".toList] ρ
+      (.and [.sel .any "sel*".toList, .not (.id "filter".toList)]) :=
+  resolve_sound _ _ (by decide)
+    (by simp [selsMatch, selsMatchList, selMatches, starMatch]) (by decide) (by decide)
+
+/-- every tree the parser returns satisfies the third hypothesis of `resolve_sound` -/
+theorem parse_nodesNonempty (g : Grammar) (s : Str) (t : PT) (h : parse g s = some t) :
+    nodesNonempty t = true :=
+  parse_inv g s t h
+
+example : nodesNonempty (.and [.id "a".toList, .id "b".toList]) = true :=
+  parse_nodesNonempty stdGrammar "a and b".toList _ (by rfl)
+
+
+/-! ## 5. Round trip with free layout
+
+`Spells g c e s` (defined in `SigmaVerif.Lemmas.CondParse`, section 7): `s` spells `e` with any
+amount of extra whitespace and redundant parentheses. -/
+
+/-- Every spelling of an expression — the canonical one with any non-empty whitespace for its
+blanks, extra whitespace before any token and at the end, `(` directly after an operator word, and
+redundant parentheses around any sub-expression — is parsed to a tree with the meaning of the
+expression. -/
+theorem parse_spells (g : Grammar) (hg : g.wf = true) (e : E) (s w : Str)
+    (hs : Spells g 2 e s) (hw : blank w) :
+    ∃ t, parse g (s ++ w) = some t ∧ ∀ dets ρ, semPT dets ρ t = e.sem dets ρ :=
+  parse_spells_aux (WF.of hg) e s w hs hw
+
+/-- `" a  and(b )\n"` spells `a and b` -/
+example : ∃ t, parse stdGrammar " a  and(b )\n".toList = some t ∧
+    ∀ dets ρ, semPT dets ρ t = (E.and (.id ['a']) (.id ['b'])).sem dets ρ := by
+  have h : Spells stdGrammar 2 (.and (.id ['a']) (.id ['b']))
+      (([' '] ++ ['a']) ++ ([' ', ' '] ++ (['a', 'n', 'd'] ++
+        ([] ++ ('(' :: (([] ++ ['b']) ++ ([' '] ++ [')']))))))) :=
+    .up12 _ _ (.and _ _ _ _ _ (.up01 _ _ (.id _ _ (by decide) (by decide))) (by decide) (by decide)
+      (.paren _ _ _ _ (by decide) (.up12 _ _ (.up01 _ _ (.id _ _ (by decide) (by decide))))
+        (by decide)) (by decide))
+  exact parse_spells stdGrammar stdGrammar_wf _ _ ['\n'] h (by decide)
+
+/-- the canonical spelling is one of the spellings, so `parse_pp` is the instance of
+`parse_spells` at `pp 2 e` -/
+theorem pp_spells (g : Grammar) (hg : g.wf = true) (e : E) (he : e.wf g = true) :
+    Spells g 2 e (pp 2 e) :=
+  (SigmaVerif.Lemmas.CondParse.pp_spells (WF.of hg) e he).2.2
+
+example : Spells stdGrammar 2 exampleE (pp 2 exampleE) :=
+  pp_spells stdGrammar stdGrammar_wf exampleE (by decide)
 
 end SigmaVerif.Props.C02
